@@ -393,9 +393,9 @@ def c15(tier):
     run = P.Run("C15", tier, ["C15_"])
     s = run.seed
     # soundness half: accepted definitions are conducted under many histories without an internal error
-    defs = F.curated() + F.random_family(2500 + s, sizes(tier, 60, 250), nmax=4, publish=True)
-    defs += F.curated_items() + F.curated_retry() + F.curated_ctx() + F.graph_family(2600 + s, sizes(tier, 40, 150), nmax=5)
-    run.add_jobs(jobs_for(defs, {"pause": 1, "cancel": 1, "sample": sizes(tier, 3, 5), "max_nodes": sizes(tier, 600, 3000)},
+    defs = F.curated() + F.random_family(2500 + s, sizes(tier, 60, 150), nmax=4, publish=True)
+    defs += F.curated_items() + F.curated_retry() + F.curated_ctx() + F.graph_family(2600 + s, sizes(tier, 40, 80), nmax=5)
+    run.add_jobs(jobs_for(defs, {"pause": 1, "cancel": 1, "sample": sizes(tier, 3, 4), "max_nodes": sizes(tier, 600, 1500)},
                           s, ("yaql", "jinja"), tok="visit"))
     run.add_jobs(jobs_for(F.curated() + F.curated_items()[:8], {"rerun": 1, "rerun_tasks": True, "sample": 3,
                                                                 "max_nodes": sizes(tier, 800, 4000)}, s))
@@ -405,13 +405,13 @@ def c15(tier):
     run.extra["accepted_runtime_faulty"] = len(rt)
     run.add_jobs(jobs_for(rt, {"pause": 1, "cancel": 1, "sample": sizes(tier, 4, 6), "max_nodes": sizes(tier, 500, 3000)}, s))
     # completeness half: single-fault mutants enumerated by TLC (spec/Inspect.tla)
-    hosts = F.curated() + F.curated_items()[:4] + F.curated_retry()[:4] + F.graph_family(2700 + s, sizes(tier, 10, 50), nmax=4)
+    hosts = F.curated() + F.curated_items()[:4] + F.curated_retry()[:4] + F.graph_family(2700 + s, sizes(tier, 10, 30), nmax=4)
     faults, res = I.enumerate_faults(hosts, run.tmp)
     run.mc_states += res["distinct"]
     run.mc_transitions += res["states"]
     if res["rc"] != 0 or not faults:
         run.machinery.append("Inspect tlc rc=%s\n%s" % (res["rc"], res["out"][-2000:]))
-    gs, errs = I.inspect_groups(hosts, faults, seed=s, cap=sizes(tier, 4000, 20000))
+    gs, errs = I.inspect_groups(hosts, faults, seed=s, cap=sizes(tier, 4000, 10000))
     for e in errs[:3]:
         run.machinery.append("inspect harness: " + e["error"][:1500])
     run.extra["faults_enumerated"] = len(faults)
